@@ -68,7 +68,7 @@ class C09(CheckBase):
             c = {'id': i, 'c': rng.randrange(ncons), 'kind': kind,
                  'mode': rng.choice(['real', 'ok', 'ok', 'failed', 'raise', 'raise_ctrl', 'slow']),
                  'delayed': rng.random() < 0.6, 'resp_delay': rng.choice([0, 0, 0.001, 0.002, 0.002, 0.003, 0.05, 0.3]),
-                 'wait': rng.random() < 0.7}
+                 'wait': rng.random() < 0.7, 'forget': rng.random() < 0.2}
             if kind == 'string':
                 c['h'] = rng.choice(STRING_OPS)
                 c['arg'] = rng.choice(['a', '169.254.0.1', 'UTC0', 'ÄÖ', ''])
@@ -96,8 +96,9 @@ class C09(CheckBase):
             f = {}
             for i in range(len(calls) * 6 + 10):
                 if rng.random() < rate:
-                    k = rng.choice(['drop', 'dup', 'delay', 'delay'])
-                    f[str(i)] = {'drop': ['drop'], 'dup': ['dup', 2], 'delay': ['delay', rng.randint(1, 3)]}[k]
+                    k = rng.choice(['drop', 'dup', 'delay', 'delay', 'merge', 'merge'])
+                    f[str(i)] = {'drop': ['drop'], 'dup': ['dup', 2], 'delay': ['delay', rng.randint(1, 3)],
+                                 'merge': ['merge']}[k]
             fates[str(ci)] = f
         return {'sched': draw_sched_config(rng), 'world': cfg, 'ncons': ncons, 'calls': calls, 'fates': fates,
                 'slow_t': rng.choice([0.05, 0.5, 1.5])}
@@ -208,6 +209,11 @@ class C09(CheckBase):
                         fut = c.client('Context').set_context_state('opSetPatCtx', [pat])
             except Exception as ex:  # noqa: BLE001
                 fut = ex
+            if call.get('forget') and not isinstance(fut, Exception):
+                # fire and forget: the application drops the result handle at once
+                ctx.probe('forgotten_futures')
+                fut = None
+                return
             with lock:
                 results.append((call, fut, s.now, before))
             if call.get('wait') and not isinstance(fut, Exception):
